@@ -248,7 +248,8 @@ PROPS = {
         engines=["rapidcheck (workload generation)", "ThreadSanitizer (g++ -fsanitize=thread)"],
         rule="cases are thread workloads: 2..16 threads released together by a spin barrier, each running a generated list of 1..5 const operations (14 kinds: group / tangent / Bundle / Galilei functions, "
              "rplus/rminus/dof on shared const SubManifold, AnyManifold, std::vector and variant, Spline and BSpline evaluation, sparse derivatives into thread-private outputs, diff::dr, minimize, fit_spline/fit_bspline) "
-             "20 or 200 times on shared const inputs decoded from the tape; every process runs only a few cases so that first use of function-local statics happens inside a concurrent phase; "
+             "20 or 200 times on shared const inputs decoded from the tape, optionally followed or replaced by one or two of 5 extended kinds whose arguments, sizes and template instantiations DIFFER between threads "
+             "(dubins_curve + reparameterize_spline, Spline arclength / concatenation / crop, polynomial basis tables + lgr_nodes + integrate_absolute_polynomial, second-order sparse derivatives incl. Bundle, AnyManifold / SubManifold with per-thread tangents); every process runs only a few cases so that first use of function-local statics happens inside a concurrent phase; "
              "non-trivial = >= 2 threads executing the same operations on the same objects",
         technique="generated thread workloads under ThreadSanitizer (happens-before race detection on the executed operation pairs) plus a bitwise differential against a sequential run computed after the concurrent phase",
         level_text="Generated workloads in fresh processes; any TSan report aborts the process and becomes a replayable violation; thread results must be bitwise identical to a sequential computation. "
